@@ -56,8 +56,8 @@ class GsExpectationValue(Contract):
         return e
 
 
-def new_props(vc):
-    l_isr = c04.new_isr(vc)
+def new_props(vc, variant="pp"):
+    l_isr = c04.new_isr(vc, variant)
     gs = l_isr.attrs["gs"]
     r_isr = Inst(c04.ISR, dict(l_isr.attrs))
     l_isr.attrs["_tag"] = "L"
@@ -230,17 +230,23 @@ class TransMomentSpace(Contract):
     props = ["C05"]
     loops = {0: _TOuter(), 1: _TInner()}
     comprehensions = {"self.gs.psi(order=o, braket='ket') for o in range(order + 1)": psi_table_model}
-    CASES = [("ph", None, None, "left"), ("pphh", None, None, "left"), ("ph", 1, 1, "right"),
-             ("ph", 2, None, "left"), ("ph", None, 1, "left"), ("p,h", None, None, "left")]
+    # (space, n_create, n_annihilate, lr_isr, ADC variant); the non PP variants have classes with
+    # different numbers of occupied and virtual indices (n_o! != n_v!)
+    CASES = [("ph", None, None, "left", "pp"), ("pphh", None, None, "left", "pp"), ("ph", 1, 1, "right", "pp"),
+             ("ph", 2, None, "left", "pp"), ("ph", None, 1, "left", "pp"), ("p,h", None, None, "left", "pp"),
+             ("phh", None, None, "left", "ip"), ("pph", None, None, "right", "ea"),
+             ("pphhh", 0, 1, "left", "ip"), ("hh", None, None, "left", "dip")]
 
     def setup(self, vc):
-        space, nc, na, lr = self.CASES[vc.choose(len(self.CASES), "case")]
-        a = {"self": new_props(vc), "order": Sym(vc.fresh_int("order")), "space": space,
+        space, nc, na, lr, variant = self.CASES[vc.choose(len(self.CASES), "case")]
+        a = {"self": new_props(vc, variant), "order": Sym(vc.fresh_int("order")), "space": space,
              "n_create": nc, "n_annihilate": na, "lr_isr": lr,
              "subtract_gs": Sym(vc.fresh_bool("subtract_gs"))}
         # default operator string: (#p, #h) of the minimal space of the variant
         if nc is None and na is None:
-            nc2, na2 = 1, 1          # pp: min_space[0] = 'ph'
+            # documented default: the operator string of the minimal space of the variant
+            # ('ca' for PP, 'a' for IP, 'c' for EA, 'aa' for DIP)
+            nc2, na2 = {"pp": (1, 1), "ip": (0, 1), "ea": (1, 0), "dip": (0, 2), "dea": (2, 0)}[variant]
         else:
             nc2, na2 = (nc or 0), (na or 0)
         vc.ghost["_tm"] = {"space": space, "nc": z3.IntVal(nc2), "na": z3.IntVal(na2),
